@@ -397,6 +397,8 @@ struct Runner {
 	uint64_t seq = 0;
 	size_t opno = 0;
 	uint64_t calls_before = 0;
+	bool wrap = false;             // script op `wrap`: issue allocate/free/deallocate/reallocate/get_size through slab_allocator
+	frg::slab_allocator<Pol, Mutex> W() { return frg::slab_allocator<Pol, Mutex>(&pool); }
 
 	// the calls the pool made during this op must have arrived at the harness's own policy object
 	void begin_identity() { calls_before = pol.calls; }
@@ -639,7 +641,7 @@ struct Runner {
 		set_env(env); g.begin_op();
 		uint64_t fp = fingerprint(); size_t ub = pool.numUsedPages();
 		begin_identity();
-		void *p = pool.allocate(n);
+		void *p = wrap ? W().allocate(n) : pool.allocate(n);
 		check_identity("allocate");
 		check_locks(g.op_failed_maps ? "allocate (map failed)" : "allocate");
 		result_ptr(p);
@@ -707,7 +709,8 @@ struct Runner {
 		g.begin_op(); g.fail_next = false; g.cur_free_p = (uintptr_t)p;
 		uint64_t fp = p ? 0 : fingerprint();
 		begin_identity();
-		if(sized) pool.deallocate(p, n); else pool.free(p);
+		if(wrap) { if(sized) W().deallocate(p, n); else W().free(p); }
+		else { if(sized) pool.deallocate(p, n); else pool.free(p); }
 		check_identity("free");
 		check_locks("free");
 		g.flush_run();
@@ -726,7 +729,7 @@ struct Runner {
 		Blk old; bool had = false;
 		if(p) { auto it = live.find((uintptr_t)p); if(it != live.end()) { old = it->second; had = true; } }
 		begin_identity();
-		void *q = pool.realloc(p, n);
+		void *q = wrap ? W().reallocate(p, n) : pool.realloc(p, n);
 		check_identity("realloc");
 		check_locks(g.op_failed_maps ? "realloc (map failed)" : "realloc");
 		result_ptr(q);
@@ -798,7 +801,7 @@ struct Runner {
 			else if(o == "r" && t.size() >= 4) op_realloc(vh::u64(t[1]), vh::u64(t[2]), t[3]);
 			else if(o == "g" && t.size() >= 2) {
 				void *p = slot(vh::u64(t[1]));
-				size_t gs = pool.get_size(p);
+				size_t gs = wrap ? W().get_size(p) : pool.get_size(p);
 				printf("= size %zu\n", gs);
 				if(p) { auto it = live.find((uintptr_t)p); if(it != live.end() && gs != it->second.size0) vh::oracle("size", "get_size changed from %zu to %zu while the block is live", it->second.size0, gs); }
 				else if(gs) vh::oracle("size", "get_size(null) = %zu", gs);
@@ -824,6 +827,7 @@ struct Runner {
 				}
 			} else if(o == "v") verify(true);
 			else if(o == "recycle") g.recycle = true;
+			else if(o == "wrap") { wrap = true; continue; }
 			else if(o == "pool" && t.size() >= 2) { cxi = vh::u64(t[1]) ? 1 : 0; cx = cxi ? &cx1 : &cx0; continue; }
 			else if(o == "sc") sizeclasses();
 			else continue;
